@@ -197,7 +197,10 @@ class C35(core.Check):
         nlibs = rng.weighted([(0, 1), (1, 5), (2, 4), (3, 2), (4, 1)])
         libs = []
         for i in range(nlibs):
-            libs.append(rng.choice(['libfoo', 'bar', 'glib-2.0', 'libbar >= 1.8.3', 'x11']) + ('%d' % i if rng.chance(0.5) else ''))
+            name = rng.choice(['libfoo', 'bar', 'glib-2.0', 'libbar >= 1.8.3', 'x11']) + ('%d' % i if rng.chance(0.5) else '')
+            if name in libs:
+                name += '_%d' % i          # package names are distinct: responses are keyed by (package, flag)
+            libs.append(name)
         p_fail = rng.choice([0.0, 0.0, 0.15, 0.4])
         resp = []
         for lib in libs:
